@@ -2,6 +2,7 @@
 //! Driven by /verif/check (python).  Subcommands: plan, chunk, one, shrink, distinct, rule.
 
 mod engine;
+mod gens;
 mod props;
 
 use engine::case::*;
